@@ -149,6 +149,12 @@ func (g *gen) meta(s int, victim int) (creator string, signers []string, class s
 
 // hostileDenom: a denomination that is NOT (necessarily) a factory token
 func (g *gen) hostileDenom(actor int) (string, string) {
+	d, c, _ := g.hostileDenomRel(actor)
+	return d, c
+}
+
+// hostileDenomRel additionally returns the existing token the hostile string was derived from ("" if none)
+func (g *gen) hostileDenomRel(actor int) (string, string, string) {
 	ds := g.tokenList()
 	ex := ""
 	if len(ds) > 0 {
@@ -159,53 +165,53 @@ func (g *gen) hostileDenom(actor int) (string, string) {
 	sub := g.subs[g.r.Intn(len(g.subs))]
 	switch g.r.Intn(16) {
 	case 0:
-		return chain.Denom, "native"
+		return chain.Denom, "native", ""
 	case 1:
-		return ibcDenom, "ibc"
+		return ibcDenom, "ibc", ""
 	case 2:
-		return "factory/" + u + "/" + sub + "zz", "uncreated-own-namespace"
+		return "factory/" + u + "/" + sub + "zz", "uncreated-own-namespace", ""
 	case 3:
-		return "factory/" + o + "/" + sub + "zz", "uncreated-foreign-namespace"
+		return "factory/" + o + "/" + sub + "zz", "uncreated-foreign-namespace", ""
 	case 4:
 		if ex != "" {
 			p := strings.SplitN(ex, "/", 3)
-			return "factory/" + strings.ToUpper(p[1]) + "/" + p[2], "existing-with-upper-creator"
+			return "factory/" + strings.ToUpper(p[1]) + "/" + p[2], "existing-with-upper-creator", ex
 		}
-		return "factory/" + strings.ToUpper(u) + "/a", "upper-creator"
+		return "factory/" + strings.ToUpper(u) + "/a", "upper-creator", ""
 	case 5:
 		if ex != "" {
-			return ex + "/", "existing-plus-slash"
+			return ex + "/", "existing-plus-slash", ex
 		}
-		return "factory/" + u + "/", "empty-sub"
+		return "factory/" + u + "/", "empty-sub", ""
 	case 6:
 		if ex != "" {
-			return strings.ToUpper(ex[:1]) + ex[1:], "existing-upper-prefix"
+			return strings.ToUpper(ex[:1]) + ex[1:], "existing-upper-prefix", ex
 		}
-		return "Factory/" + u + "/a", "upper-prefix"
+		return "Factory/" + u + "/a", "upper-prefix", ""
 	case 7:
-		return "factory/" + u, "two-parts"
+		return "factory/" + u, "two-parts", ""
 	case 8:
-		return "factory//" + sub, "empty-creator-part"
+		return "factory//" + sub, "empty-creator-part", ""
 	case 9:
-		return "factory/not-an-address/a", "garbage-creator-part"
+		return "factory/not-an-address/a", "garbage-creator-part", ""
 	case 10:
-		return "", "empty"
+		return "", "empty", ""
 	case 11:
-		return "x", "too-short"
+		return "x", "too-short", ""
 	case 12:
 		if ex != "" {
-			return ex + "/sub", "existing-plus-part"
+			return ex + "/sub", "existing-plus-part", ex
 		}
-		return "factory/" + u + "/a/sub", "own-plus-part"
+		return "factory/" + u + "/a/sub", "own-plus-part", ""
 	case 13:
-		return "factory/" + g.strange[3] + "/a", "valoper-creator-part"
+		return "factory/" + g.strange[3] + "/a", "valoper-creator-part", ""
 	case 14:
 		if ex != "" && strings.Count(ex, "/") > 2 {
-			return ex[:strings.LastIndex(ex, "/")], "existing-prefix"
+			return ex[:strings.LastIndex(ex, "/")], "existing-prefix", ex
 		}
-		return "stake", "unknown-native"
+		return "stake", "unknown-native", ""
 	default:
-		return "factory/" + g.strange[4] + "/a", "wrong-hrp-creator-part"
+		return "factory/" + g.strange[4] + "/a", "wrong-hrp-creator-part", ""
 	}
 }
 
@@ -412,13 +418,13 @@ func one(s int, m msgSpec, note string) blockSpec {
 }
 
 // pickDenom: an existing factory token most of the time, otherwise something hostile
-func (g *gen) pickDenom(actorHint int) (string, string, bool) {
+func (g *gen) pickDenom(actorHint int) (string, string, string) {
 	ds := g.tokenList()
 	if len(ds) > 0 && g.pct(74) {
-		return ds[g.r.Intn(len(ds))], "existing", true
+		d := ds[g.r.Intn(len(ds))]
+		return d, "existing", d
 	}
-	d, c := g.hostileDenom(actorHint)
-	return d, c, false
+	return g.hostileDenomRel(actorHint)
 }
 
 // scenario pushes a scripted multi-block sub-scenario onto the queue
@@ -540,31 +546,31 @@ func (g *gen) single() (int, msgSpec, string) {
 		m.DenomClass = "recreate"
 		return t.CreatorIdx, m, "recreate"
 	case x < 45: // mint
-		d, dc, ok := g.pickDenom(g.r.Intn(len(g.users)))
+		d, dc, rel := g.pickDenom(g.r.Intn(len(g.users)))
 		s := g.r.Intn(len(g.users))
-		if ok {
-			s, _ = g.pickActor(d)
+		if rel != "" && (rel == d || g.pct(70)) {
+			s, _ = g.pickActor(rel) // hostile variants of an existing token are mostly tried by its admin
 		}
 		return s, g.msgMint(s, d, dc), "mint"
 	case x < 65: // burn
-		d, dc, ok := g.pickDenom(g.r.Intn(len(g.users)))
+		d, dc, rel := g.pickDenom(g.r.Intn(len(g.users)))
 		s := g.r.Intn(len(g.users))
-		if ok {
-			s, _ = g.pickActor(d)
+		if rel != "" && (rel == d || g.pct(70)) {
+			s, _ = g.pickActor(rel) // hostile variants of an existing token are mostly tried by its admin
 		}
 		return s, g.msgBurn(s, d, dc), "burn"
 	case x < 78: // change admin
-		d, dc, ok := g.pickDenom(g.r.Intn(len(g.users)))
+		d, dc, rel := g.pickDenom(g.r.Intn(len(g.users)))
 		s := g.r.Intn(len(g.users))
-		if ok {
-			s, _ = g.pickActor(d)
+		if rel != "" && (rel == d || g.pct(70)) {
+			s, _ = g.pickActor(rel) // hostile variants of an existing token are mostly tried by its admin
 		}
 		return s, g.msgChAdmin(s, d, dc), "chadmin"
 	case x < 90: // set metadata
-		d, dc, ok := g.pickDenom(g.r.Intn(len(g.users)))
+		d, dc, rel := g.pickDenom(g.r.Intn(len(g.users)))
 		s := g.r.Intn(len(g.users))
-		if ok {
-			s, _ = g.pickActor(d)
+		if rel != "" && (rel == d || g.pct(70)) {
+			s, _ = g.pickActor(rel) // hostile variants of an existing token are mostly tried by its admin
 		}
 		return s, g.msgSetMeta(s, d, dc), "setmeta"
 	default: // plain bank transfer of a factory token between users
